@@ -428,6 +428,15 @@ package calendar
 //@     assert(jdn(v.year, v.month, v.day) > jdn(w.year, w.month, w.day))
 //@     assert(jdn(v.year, v.month, v.day) <= jdn(w.year, w.month, w.day)+7)
 
+//@ # the same backwards: one month-separated step back reaches a different, earlier week at most 7 days away
+//@ ghost func weekPrevSeparateMoves(w *SolarWeek) [C15]
+//@   requires weekOK(w) && jdnInRange(jdn(w.year, w.month, w.day)-40) && jdnInRange(jdn(w.year, w.month, w.day)+40)
+//@   body
+//@     v := w.Next(-1, true)
+//@     assert(v != nil && v.start == w.start)
+//@     assert(jdn(v.year, v.month, v.day) < jdn(w.year, w.month, w.day))
+//@     assert(jdn(v.year, v.month, v.day) >= jdn(w.year, w.month, w.day)-7)
+
 //@ # the weeks of a month start with the week of the 1st and follow one every 7 days; that their number equals
 //@ # GetWeeksOfMonth is executed for every month and week start by the bounded stand-in month_weeks (the count needs a
 //@ # loop over a growing list, which the engine unrolls but the solvers do not close within the budget)
